@@ -763,7 +763,9 @@ where
                         expected.push(new_expected);
                     }
                 }
-                *found = found.take().or(new_found); //land
+                // `found` describes the token at the start of *this* error's span: do not adopt the token of a
+                // failure that happened elsewhere (consistent with `Error::merge`)
+                let _ = new_found;
             }
             RichReason::Custom(_) => {}
         }
